@@ -208,6 +208,30 @@ for make in (lambda: create_new_processor(processor=proc, parameter_dict={'detec
 """, "expect": "a processor made for a run shares no mutable state with the caller's processor"}
 
 
+RUNS_REPLAY = lambda w: {"code": """
+import verif_probes as VP
+from pyxel.pipelines import DetectionPipeline, ModelFunction, Processor
+from pyxel.observation import Observation, ParameterValues
+from pyxel.exposure import Readout
+VIOLATED, DETAIL = False, 'every run starts from the detector memory of the caller and leaves it alone'
+for dask in (False, True):
+    VP.LOG.clear()
+    det = VP.detector()
+    pipe = DetectionPipeline(photon_collection=[ModelFunction(func='verif_probes.remember', name='r', arguments={'level': 0})])
+    obs = Observation(parameters=[ParameterValues(key='pipeline.photon_collection.r.arguments.level', values=[5, 6, 7])], readout=Readout(times=[1.0]), with_dask=dask)
+    res = obs.run_pipelines(Processor(detector=det, pipeline=pipe), with_inherited_coords=True)
+    if dask and hasattr(res, 'compute'):
+        import dask as _dask
+        with _dask.config.set(scheduler='synchronous'):
+            res = res.compute()
+    seen = sorted((x['level'], x['seen_before']) for x in VP.LOG)
+    # (the dask path may run one combination twice: a dry run that fixes the output layout)
+    if any(s for _, s in seen) or sorted(set(l for l, _ in seen)) != [5, 6, 7] or det._memory.get('seen') or any(x['detector'] is det for x in VP.LOG):
+        VIOLATED, DETAIL = True, f'with_dask={dask}: (level, memory found at the start of the run) = {seen}; memory of the caller afterwards: {det._memory.get("seen")}'
+        break
+""", "expect": "a run neither sees what another run left in the detector memory nor writes the caller's detector"}
+
+
 def check_copy(u, p, name, new, holder, expect_changed=0):
     st = p.st
     old_reach = reach(st, [holder["proc"]])
@@ -383,7 +407,7 @@ def run_frame(u: Unit):
         if p.kind != "return":
             continue
         ok = rec.get("copied_from") is caller and rec.get("ran") is rec.get("copy") and rec.get("ran") is not caller
-        u.oblige(p, "run.frame[sequential observation]", bool(ok), {}, ISO_REPLAY)
+        u.oblige(p, "run.frame[sequential observation]", bool(ok), {}, RUNS_REPLAY)
     u.cover("run.frame.cover", ps, lambda p: p.kind == "return")
     # dask task function and calibration: def-use resolution of the `processor=` argument of run_pipeline
     from .C20 import normalise_expr
